@@ -1,0 +1,29 @@
+//go:build verif
+
+// Contracts for package logging, read by /verif/govc (contract-based deductive verification).
+// This file contains comments only; it adds no code to any build.
+
+package logging
+
+// The logging entry points hand a formatted message to the user's logger functions. Their bodies are
+// not verified (they spawn goroutines calling user code); assumption A-LOGGER: user loggers and
+// formatters do not write library state.
+
+//@ func (*Instance).Debug
+//@   noverify
+//@   pure
+//@ func (*Instance).Debugf
+//@   noverify
+//@   pure
+//@ func (*Instance).Info
+//@   noverify
+//@   pure
+//@ func (*Instance).Infof
+//@   noverify
+//@   pure
+//@ func (*Instance).Critical
+//@   noverify
+//@   pure
+//@ func (*Instance).Criticalf
+//@   noverify
+//@   pure
